@@ -4,7 +4,7 @@ an is_burst column by then) with one threshold or min_n_cycles raised: "on a fix
 labels" is checked on the implementation, not only proved on the model."""
 import math
 import numpy as np
-from harness import coqio
+from harness import coqio, tablelayout
 from harness.core import exc_kind
 
 PROP = 'C06'
@@ -23,9 +23,11 @@ def stream_of(c):
     return 'table' if c['kind'] == 'table' else 'pipe'
 
 RULE = ('synthetic cycle tables whose four feature columns take values on, one ulp below and one ulp above the '
-        'thresholds (plus 0, 1, NaN, inf), default and non-default row labels, threshold vectors from a grid in [0,1]^4 and out-of-range/NaN values, '
+        'thresholds (plus 0, 1, NaN, inf), default and non-default row labels, about 40 % of the tables with their columns '
+        'in another order than the library\'s own (sorted by name, reversed, shuffled) and some with an unrelated extra '
+        'column (labels and features are read by name), threshold vectors from a grid in [0,1]^4 and out-of-range/NaN values, '
         'min_n_cycles in -1..6; plus compute_features(burst_method="cycles") on generated signals with the '
-        'thresholds the caller passed (routing + defaults, min_n_cycles 0..4). Every returned table is labelled a second '
+        'thresholds the caller passed (routing + defaults, min_n_cycles 0..4; the returned table re-ordered the same way before the second call). Every returned table is labelled a second '
         'time by detect_bursts_cycles with one threshold raised (+0.1, to the next double, or to the feature value of one '
         'of its rows) or min_n_cycles + 1: second labels = rule, and a subset of the first. Settings outside the '
         'quantifier (thresholds outside [0,1] or NaN, negative min_n_cycles) and the dtype of the label column are '
@@ -89,6 +91,10 @@ def cases(rng, tier):
             c['thr'] = dict(c['thr'] or {}, min_n_cycles=0)     # 0 is a documented value (every run is long enough)
         c['raise'] = _gen_raise(rng)
         out.append(c)
+    # column layout of the table handed to detect_bursts_cycles (table stream: both calls; pipeline stream: the second
+    # call on the returned table). Drawn after everything else, so that the cases themselves are those of earlier runs.
+    for c in out:
+        c['cols'] = tablelayout.gen_layout(rng)
     return out
 
 
@@ -153,6 +159,8 @@ def run_impl(c):
             df.index = np.arange(len(rows))[::-1]
         elif ix == 'sparse':
             df.index = np.arange(len(rows)) * 3 + 1
+        # ... nor its columns in the library's order, and it may carry columns of the user's own
+        df = tablelayout.apply_layout(df, c.get('cols'))
         before = df.copy()
         kw = _kwargs(c)
         try:
@@ -168,6 +176,10 @@ def run_impl(c):
             kw2['min_n_cycles'] = n2
         else:
             kw2[KEYS[_rs(c)['what']]] = eff2[_rs(c)['what']]
+        lay = c.get('cols')
+        if lay and lay.get('order', 'lib') != 'lib':
+            # the returned table (now with an is_burst column) is brought into the same kind of order again
+            res = tablelayout.apply_layout(res, {'order': lay['order'], 'seed': lay.get('seed', 0) + 1})
         try:
             res2 = detect_bursts_cycles(res, **kw2)
             out['second'] = _read_labels(res2, before)
@@ -186,7 +198,7 @@ def _read_labels(res, before):
     col = np.asarray(col)
     if col.ndim != 1 or len(col) != len(before) or any(v is None or (isinstance(v, float) and v != v) for v in col.tolist()):
         return {'labels': [False] * len(before), 'features_unchanged': False, 'bad_label_column': True, 'dtype_bool': isbool}
-    same = all(np.array_equal(np.asarray(res[k]), np.asarray(before[k]), equal_nan=True) for k in before.columns)
+    same = all(k in res.columns and tablelayout.same_column(res[k], before[k]) for k in before.columns)
     return {'labels': [bool(x) for x in col], 'features_unchanged': bool(same), 'dtype_bool': isbool}
 
 
@@ -197,7 +209,8 @@ def _pipe_second(c):
     from harness import gen
     try:
         df = pipeline.call_compute_features(gen.unhexlist(c['sig']), c, return_samples=True)
-        before = df[COLS].copy()
+        df = tablelayout.apply_layout(df, c.get('cols'))       # e.g. the user sorted the columns before re-labelling
+        before = df[COLS + ([tablelayout.extra_name(c.get('cols'))] if tablelayout.extra_name(c.get('cols')) else [])].copy()
         first = _read_labels(df, before)
         rows = [[float(before[k].iloc[i]) for k in COLS] for i in range(len(before))]
         rs = pipeline.resolved(c)
@@ -311,7 +324,9 @@ def kind_of(c, o):
         if sum(labs[1]['labels']) < sum(labs[0]['labels']):
             _STATS['second_calls_removing_a_label'] += 1
     _STATS['nonbool_label_columns'] += sum(1 for l in labs if l and l.get('dtype_bool') is False)
-    return c['kind'] + ('/err' if 'err' in o else '') if c['kind'] == 'table' else pipeline.kind_of(c, o)
+    if c['kind'] == 'table':
+        return c['kind'] + tablelayout.tag(c.get('cols')) + ('/err' if 'err' in o else '')
+    return pipeline.kind_of(c, o) + ('/2nd-call' + tablelayout.tag(c.get('cols')) if c.get('cols') else '')
 
 
 def extra_evidence():
